@@ -126,6 +126,36 @@ def second_call_cases(rng):
     return cases
 
 
+def caught_refusal_cases():
+    """The application catches the refusal of a start_response call (try / except around it) and reports the failure with
+    start_response(..., exc_info) - the PEP 3333 error idiom.  Nothing of the refused call may reach the client.
+    Oracle only: Model/Response.v has no action for an exception caught inside the application."""
+    cases = []
+    bads = [[["Set-Cookie", "secret=of-the-refused-call"], ["Content-Type", "application/json"], ["Bad Name", "x"]],
+            [["X-Trace", "of-the-refused-call"], ["Content-Length", "77"], ["X-V", "a\r\nb"]],
+            [["Upgrade", "websocket"], ["Connection", "upgrade"], ["X-N\x00", "v"]],
+            [["X-Only", "refused"], ["X", "\u0100"]]]
+    goods = [("500 Internal Server Error", [["Content-Type", "text/plain"], ["Content-Length", "5"]]),
+             ("500 Oops", [["X-Second", "2"]]),
+             ("503 Later", [])]
+    for wk in ("sync", "gthread", "async"):
+        for minor in (0, 1):
+            for conn in ([], ["keep-alive"]):
+                for bad in bads:
+                    for st, hs in goods:
+                        first = ["srt", "200 OK", bad, False]
+                        for split in (1, 2, 3):
+                            c = mkcase(wk, [first, ["sr", st, hs, True], ["w", "error"]], split=split, minor=minor, conn=conn)
+                            c["oracle_only"] = True
+                            cases.append(c)
+                        # a refused replacement, caught, then a good one
+                        c = mkcase(wk, [["sr", "200 OK", [["Content-Length", "3"], ["X-First", "1"]], False],
+                                        ["srt", "500 A", bad, True], ["sr", st, hs, True], ["w", "error"]], split=3, minor=minor, conn=conn)
+                        c["oracle_only"] = True
+                        cases.append(c)
+    return cases
+
+
 def random_cases(rng, n):
     cases = []
     alphabet = [chr(c) for c in (0, 9, 10, 13, 32, 58, 44, 127, 133, 160, 255, 256, 0x2028)] + list("aZ09-_ :;,\"")
@@ -176,6 +206,8 @@ def judge(case, outs, info):
     app = case["reqs"][0]["app"]
     rq = case["reqs"][0]["req"]
     # 1. a call that must be refused as the very first action: no byte, exception to handle_error
+    if case.get("oracle_only"):
+        return judge_caught(case, o)
     first = app["acts"][0] if app["acts"] else None
     if first is not None and first[0] == "sr" and (refusable(first) or unencodable(first)):
         if wire:
@@ -261,13 +293,49 @@ def judge(case, outs, info):
     return fails
 
 
+def judge_caught(case, o):
+    """caught-refusal cases: the head is the server's lines + exactly the headers of the last accepted call"""
+    fails = []
+    wire = o["wire"]
+    app = case["reqs"][0]["app"]
+    rq = case["reqs"][0]["req"]
+    eff = [a for a in app["acts"] if a[0] == "sr"][-1]
+    hl = L.head_lines(wire)
+    if hl is None:
+        return ["the bytes sent contain no complete head: %r" % wire[:200]]
+    lines, _rest = hl
+    want0 = ("HTTP/%d.%d %s" % (rq["major"], rq["minor"], eff[1])).encode("latin-1")
+    if lines[0] != want0:
+        fails.append("status line %r, expected %r (the call in effect)" % (lines[0], want0))
+    own = lines[1:]
+    k = 3
+    if not (len(own) >= 3 and own[0].startswith(b"Server: ") and own[1].startswith(b"Date: ") and own[2].startswith(b"Connection: ")):
+        fails.append("the head does not carry the server's Server/Date/Connection lines: %r" % own[:4])
+    if len(own) > 3 and own[3] == b"Transfer-Encoding: chunked":
+        k = 4
+    got = own[k:]
+    want = [("%s: %s" % (n, v.strip(" \t"))).encode("latin-1") for n, v in eff[2] if n.lower() not in RFC_HOP]
+    if got != want:
+        fails.append("after a refused start_response call that the application caught, the replacing call's head carries %r, expected exactly %r"
+                     % (got, want))
+    if own[2:3] == [b"Connection: upgrade"]:
+        fails.append("Connection: upgrade survives from a refused start_response call")
+    for a in app["acts"]:
+        if a[0] == "srt":
+            for n, v in a[2]:
+                enc = ("%s: %s" % (n, v)).encode("latin-1", "ignore")
+                if len(enc) >= 6 and enc in wire:
+                    fails.append("a header of the refused call is on the wire: %r" % enc)
+    return fails
+
+
 def run_case(case):
     outs, info = L.run_real(case)
     return outs, info, judge(case, outs, info)
 
 
 def all_cases(ctx):
-    cases = sweep_cases(ctx.rng) + hop_cases() + second_call_cases(ctx.rng)
+    cases = sweep_cases(ctx.rng) + hop_cases() + second_call_cases(ctx.rng) + caught_refusal_cases()
     cases += random_cases(ctx.rng, 600 if ctx.quick() else 40000)
     if not ctx.quick():
         # pairs of code points in one value / status
@@ -291,11 +359,14 @@ def run(ctx):
         app = case["reqs"][0]["app"]
         ctx.count_case(json.dumps(case, sort_keys=True), True)
         ctx.hist("worker", case["worker"])
-        ctx.hist("start_response_calls", sum(1 for a in app["acts"] if a[0] == "sr"))
+        ctx.hist("start_response_calls", sum(1 for a in app["acts"] if a[0] in ("sr", "srt")))
+        if case.get("oracle_only"):
+            ctx.hist("caught_refusal", case["worker"])
         if outs:
             e = outs[0]["ended"]
             ctx.hist("ended", {0: "completed", 1: "aborted-after-head", 2: "refused-before-any-byte"}[e[0]] + ("" if e[0] == 0 else "/%d" % e[1]))
-        corr.append((L.cq_case(case), L.impl_obs(outs), case))
+        if not case.get("oracle_only"):
+            corr.append((L.cq_case(case), L.impl_obs(outs), case))
         if fails:
             nfail += 1
             if len(ctx.violations) < 3:
